@@ -26,6 +26,14 @@ def binLevel : Op → Option Nat
 
 def dp : Pos := ⟨0, 0, 0⟩
 
+/-- the lexer's token name of an operator (tokens.go / parser.y) -/
+def opTokenName : Op → String
+  | .inc => "INC" | .dec => "DEC" | .div => "DIV" | .mod => "MOD" | .mul => "MUL"
+  | .minus => "MINUS" | .plus => "PLUS" | .pow => "POW" | .shl => "SHL" | .shr => "SHR"
+  | .lt => "LT" | .gt => "GT" | .le => "LE" | .ge => "GE" | .eq => "EQ" | .ne => "NE"
+  | .bitand => "BITAND" | .xor => "XOR" | .bitor => "BITOR" | .not => "NOT" | .and => "AND" | .or => "OR"
+  | .addAssign => "ADD_ASSIGN" | .assign => "ASSIGN" | .match => "MATCH" | .notMatch => "NOT_MATCH"
+
 /-- postfix operators after a primary expression -/
 def postOps : Node → List Tok → Node × List Tok
   | e, .op .inc :: r => postOps (.un .inc e dp .unk) r
